@@ -18,8 +18,8 @@ META = dict(
         "qucumber/utils/cplx.py: make_complex, real, imag",
     ],
     bounds=dict(
-        quick="architectures (num_visible,num_hidden,num_aux) in {(1,1,1),(1,2,2),(1,1,2),(2,1,1),(2,2,1),(2,2,2),(3,1,1)}; all pairs of basis states; rho(space,space), rho(v,vp,expand=False) on all pairs, 1-D rho(v,vp)",
-        thorough="additionally (2,1,2),(1,3,3),(2,3,3),(3,2,2),(3,1,2),(4,1,1),(4,2,1),(3,3,2),(2,4,4),(1,4,4),(3,1,3),(4,3,1); same call forms",
+        quick="architectures (num_visible,num_hidden,num_aux) in {(1,1,1),(1,2,2),(1,1,2),(2,1,1),(2,2,1),(2,2,2),(3,1,1)}; all pairs of basis states; rho(space,space), rho(v,vp,expand=False) on all pairs, 1-D rho(v,vp); sampler kernel (C05 scenario) for (1,1,1),(2,1,2); real-torch float runs at 2 parameter points of magnitude <= 8 per job",
+        thorough="additionally (2,1,2),(1,3,3),(2,3,3),(3,2,2),(3,1,2),(4,1,1),(4,2,1),(3,3,2),(1,4,4),(3,1,3),(4,3,1); same call forms; sampler kernel also (2,2,2),(3,2,1)",
     ),
     outside=["floating point", "num_visible = 4 with num_aux > 1, num_aux = 4, architectures not listed (query size grows as 4^n 4^a)",
              "the measure-zero parameter set where 1 + exp(x_k + i y_k) = 0 for an auxiliary unit (log 0 in the real-arithmetic model); listed under assumptions"],
